@@ -721,10 +721,8 @@ func (progBldr *ProgBuilder) Mul(ctx *context) {
 func (progBldr *ProgBuilder) Div(ctx *context) {
 	denom := ctx.popNumber("div (denominator)")
 	numer := ctx.popNumber("div (numerator)")
-	if denom == 0.0 {
-		ctx.pushDatum(NewNumDatum(math.Inf(1)))
-		return
-	}
+	// IEEE 754 division already gives +/-Infinity and NaN for a zero
+	// denominator, as XPath requires.
 	ctx.pushDatum(NewNumDatum(numer / denom))
 }
 
